@@ -432,3 +432,17 @@ def _namedtuple(ex, args, kwargs, node):
 
 
 from mmverif.engine import numeric_ledger as _numeric   # registers numpy/scipy
+
+
+BINOM = z3.Function('BINOM', z3.IntSort(), z3.IntSort(), z3.IntSort())
+
+
+@lib('scipy.special.comb',
+     'scipy.special.comb(n, k, exact=True) is the binomial coefficient (an '
+     'uninterpreted function BINOM(n, k) >= 0 here)')
+def _comb(ex, args, kwargs, node):
+  n = num_term(ex.need_not_none(args[0], node, 'comb n'))
+  k = num_term(ex.need_not_none(args[1], node, 'comb k'))
+  t = BINOM(n, k)
+  ex.ctx.assume(t >= 0)
+  return VInt(t)
